@@ -59,20 +59,33 @@ class Cell:
         ints = [n for n, t in self.sym if t == 'int']
         bools = [n for n, t in self.sym if t == 'bool']
         letters = 'abcdefghijklmnopqrstuvwxyz'
+        # the concrete anchor goes through the real parser and the public API: give it the characters that are
+        # awkward for XML, XPath, CSV-like splitting and whitespace handling; contents (c0, c1, ...) get
+        # non-ASCII and supplementary-plane characters.  Plain letters are the fallback when the
+        # preconditions (regular expressions, alphabets) do not admit these.
+        nasty = ["'", '"', ',', '&', '<', ']', '=', '/', '@', '[', '(', '%', '+', '#', ';', ':', '>', '*', '?', '|']
+        content = ['\U0001F600', '\u00e9', '\u4e2d', '\u00df']
         import re as _re
         want_len = {}
         for pr in self.pre:
             for m in _re.finditer(r'len\((\w+)\) == (\d+)', pr):
                 want_len[m.group(1)] = int(m.group(2))
-        base = {n: letters[i % 26] * want_len.get(n, 1 + i // 26) for i, n in enumerate(strs)}
-        for combo in itertools.product(range(-1, 6), repeat=len(ints)):
-            for bcombo in itertools.product((False, True), repeat=len(bools)):
-                a = dict(base)
-                a.update(zip(ints, combo))
-                a.update(zip(bools, bcombo))
-                if self.pre_holds(a):
-                    self.example = a
-                    return a
+        bases = [
+            {n: (content[i % 4] if _re.fullmatch(r'c\d', n) else
+                 (nasty[i % len(nasty)] + ' ' * (want_len.get(n, 1) - 1))[:max(1, want_len.get(n, 1))])
+             for i, n in enumerate(strs)},
+            {n: (nasty[i % len(nasty)] + ' ' * (want_len.get(n, 1) - 1))[:max(1, want_len.get(n, 1))] for i, n in enumerate(strs)},
+            {n: letters[i % 26] * want_len.get(n, 1 + i // 26) for i, n in enumerate(strs)},
+        ]
+        for base in bases:
+            for combo in itertools.product(range(-1, 6), repeat=len(ints)):
+                for bcombo in itertools.product((False, True), repeat=len(bools)):
+                    a = dict(base)
+                    a.update(zip(ints, combo))
+                    a.update(zip(bools, bcombo))
+                    if self.pre_holds(a):
+                        self.example = a
+                        return a
         return None
 
 
